@@ -1,5 +1,6 @@
 import SkyllhModel.Proto
 import SkyllhModel.Model.Params
+import SkyllhModel.Model.ParamsHeap
 open Proto Params
 
 /-  Stateful driver for property C04 (state = stack of ParameterSet / ParameterModelMapper models,
@@ -30,6 +31,7 @@ open Proto Params
 inductive St
   | ps (s : PSet Float)
   | pmm (s : PMM Float)
+  | world (w : Heap.World Float)
 
 def pO (s : String) : Option Float := if s == "N" then none else some (pF s)
 def fO : Option Float → String
@@ -195,10 +197,31 @@ def fPMM2 (s : PMM Float) (g : List Float) (names : List String) (idxs : List Na
 def fProbe (ps : List (Param Float)) (rows : List (List Bool)) : String :=
   sl ((ps.zip rows).map (fun pr => pr.1.name ++ "=" ++ String.join (pr.2.map (fun (b : Bool) => if b then "A" else "R"))))
 
+/-- several `ParameterSet` objects sharing `Parameter` objects (Model/ParamsHeap.lean):
+      world                                 reset: one empty set (register 0)
+      wadd <k> <name> <ini> <lo> <hi> <fx> <front> | wfix <k> <req> | wfloat <k> <req> | wsetv <k> <name> <bits>
+      wunion <i> <j> | wctor <i> | wcopy <i>        (each creates a new register)
+      wview <k> <names> <gflp>              -> views of register k -/
+def pWOp (toks : List String) : Option (Heap.WOp Float) :=
+  match toks with
+  | ["wadd", k, name, ini, lo, hi, fx, front] => some (.add (pN k) (pArgs name ini lo hi fx) (pB front))
+  | ["wfix", k, req] => some (.fix (pN k) (pFixReq req))
+  | ["wfloat", k, req] => some (.float (pN k) (pFloatReq req))
+  | ["wsetv", k, n, v] => some (.setv (pN k) n (pF v))
+  | ["wunion", i, j] => some (.union (pN i) (pN j))
+  | ["wctor", i] => some (.ctor (pN i))
+  | ["wcopy", i] => some (.copy (pN i))
+  | _ => none
+
 def stepLine (stack : List St) (line : String) : List St × String :=
   let toks := tokens line
   match toks, stack with
   | ["ps"], _ => ([St.ps PSet.empty], "ok")
+  | ["world"], _ => ([St.world Heap.World.empty], "ok")
+  | ["wview", k, q, g], St.world w :: _ =>
+      (stack, match w.viewsOf (pN k) (pList id q) (pList pF g) with
+        | some v => fViews v
+        | none => "ERR:IndexError")
   | ["pmm", ms], _ =>
       let models := (pList pKV (ms.replace ":" "=")).map (fun kv => (kv.1, kv.2 == "1"))
       ([St.pmm (PMM.create models)], "ok")
@@ -228,6 +251,10 @@ def stepLine (stack : List St) (line : String) : List St × String :=
       let r := s.updateFixedValueCache; (St.ps r.1 :: rest, fRes r.2)
   | ["updcache"], St.pmm s :: rest =>
       let r := s.gps.updateFixedValueCache; (St.pmm { s with gps := r.1 } :: rest, fRes r.2)
+  | _, St.world w :: rest =>
+      match pWOp toks with
+      | none => (stack, "bad-op")
+      | some op => let r := w.step op; (St.world r.1 :: rest, fRes r.2)
   | _, top :: rest =>
       match pOp toks with
       | none => (stack, "bad-op")
@@ -235,6 +262,7 @@ def stepLine (stack : List St) (line : String) : List St × String :=
         match top with
         | St.ps s => let r := s.step op; (St.ps r.1 :: rest, fRes r.2)
         | St.pmm s => let r := s.step op; (St.pmm r.1 :: rest, fRes r.2)
+        | St.world _ => (stack, "bad-op")
   | _, [] => (stack, "bad-op")
 
 def main : IO Unit := do loopS (← IO.getStdin) [St.ps PSet.empty] stepLine
